@@ -53,7 +53,7 @@ class StoreModel:
 
     # -- world ---------------------------------------------------------------------------------------------------
     def init(self):
-        w = LdmWorld("Dictionary")
+        w = LdmWorld("Dictionary", probe_trash=True)
         w.ref = R.RefStore()
         w.ids = []            # identifiers in the order they were issued
         w.shared = []         # immutable message dictionaries (shared between snapshots)
@@ -145,7 +145,10 @@ class StoreModel:
         elif op == "add":
             _, app, mname, validity, loc = ev
             msg = self._msg(w, mname)
+            runs = w.trash_probe.count
             got = w.add(app, msg, validity, loc)
+            if w.trash_probe.count > runs:      # the reactive maintenance ran inside this add: it counts as a maintenance run
+                ref.maintenance(now)
             registered = app in ref.providers
             exp.update(registered=registered)
             if isinstance(got, int) and not isinstance(got, bool) and got != -1:
@@ -177,7 +180,10 @@ class StoreModel:
         elif op == "adv":
             w.advance(ev[1])
         elif op == "maint":
+            runs = w.trash_probe.count
             got = w.maintenance()
+            if w.trash_probe.count != runs + 1:
+                raise RuntimeError("harness: maintenance probe did not see the explicit run")
             ref.maintenance(w.now)
         else:
             raise ValueError(ev)
@@ -367,7 +373,7 @@ def parts(tier):
                   ("upd", A["CAM"], 0, "camB"), ("upd", A["VAM"], 0, "camB"), ("del", A["CAM"], 0), ("del", A["DENM"], 1), ("del", A["VAM"], 0)])
     lifecycle = dict(
         name="lifecycle", setup=(("regp", A["CAM"]), ("regp", A["VAM"]), ("regc", A["CAM"])), max_objs=3, consumer=A["CAM"],
-        depth=7 if th else 6,
+        depth=7 if th else 5,
         alphabet=[("add", A["CAM"], "camA", 0, "near"), ("add", A["CAM"], "camA", 1, "near"), ("add", A["CAM"], "camA", 5, "near"),
                   ("add", A["CAM"], "camC", 1, "own"), ("add", A["VAM"], "vamA", 1, "far"),
                   ("upd", A["CAM"], 0, "camB"), ("upd", A["CAM"], 1, "camB"), ("upd", A["CAM"], "x", "camB"),
